@@ -71,7 +71,7 @@ pub fn run_forked(dir: &Path, args: &[String]) -> RunResult {
                 let msg = if let Some(s) = info.payload().downcast_ref::<&str>() { s.to_string() }
                           else if let Some(s) = info.payload().downcast_ref::<String>() { s.clone() } else { "Box<dyn Any>".into() };
                 eprintln!("\nthread 'main' panicked at {}:\n{}", site, msg);
-                if !site.starts_with(&root) && !site.starts_with("src/") {
+                if !site.starts_with(&root) && !site.starts_with("src/") && !site.contains("/out/parse/lalrparser.rs") {
                     alarm(120);
                     eprintln!("stack backtrace:\n{}", std::backtrace::Backtrace::force_capture());
                 }
@@ -221,6 +221,10 @@ pub fn enclosing_fn(site: &str) -> Option<String> {
 /// `<prefix>-panic:<where>:<normalised message>`; no line numbers (they move with unrelated edits)
 pub fn panic_class(prefix: &str, site: &str, msg: &str, rest: &str) -> String {
     let file = site.rsplitn(3, ':').nth(2).unwrap_or(site);
+    if file.ends_with("/out/parse/lalrparser.rs") {
+        // the parser generated by lalrpop in the build directory: action numbers and the path change with every build
+        return format!("{}-panic:lalrparser.rs(generated):{}", prefix, norm_msg(msg));
+    }
     let in_repo = file.starts_with(&repo_root()) || file.starts_with("src/");
     let whr = if in_repo { enclosing_fn(site).map(|f| format!("{}:{}", short_path(file), f)).unwrap_or_else(|| short_path(file)) }
               else { truth_frame(rest).map(|f| format!("{}<-{}", short_path(file), f)).unwrap_or_else(|| short_path(file)) };
@@ -250,7 +254,12 @@ pub fn classify(prefix: &str, r: &RunResult, names: &[&str], ctx: &str) -> Outco
     if let Some(s) = r.signal { return Outcome { ok: false, class: format!("{}-signal{}:{}", prefix, s, ctx), detail: tail(2), rc: 128 + s }; }
     match r.code {
         None => Outcome { ok: false, class: format!("{}-signal:{}", prefix, ctx), detail: tail(2), rc: -1 },
-        Some(0) => Outcome { ok: true, class: "ok".into(), detail: String::new(), rc: 0 },
+        Some(0) => {
+            // success must not come with an error-severity diagnostic ("fails if and only if an error was printed")
+            if stderr.lines().any(|l| l.starts_with("error:") || l.starts_with("error[")) {
+                Outcome { ok: false, class: format!("{}-error-but-exit-0:{}", prefix, ctx), detail: format!("exit 0 although an error diagnostic was printed; {}", tail(2)), rc: 0 }
+            } else { Outcome { ok: true, class: "ok".into(), detail: String::new(), rc: 0 } }
+        },
         Some(c) if c >= 124 => Outcome { ok: false, class: format!("{}-signal{}:{}", prefix, c - 128, ctx), detail: tail(2), rc: c },
         Some(c) => {
             let has_err = stderr.lines().any(|l| l.starts_with("error"));
